@@ -105,6 +105,9 @@ def gobLib : Lib := ⟨fun k c => match k, c with
   | .map, none => some []
   | _, c => c⟩
 
+/-- msgpack (a swamp registered with EncodingMsgPack), as observed: nil and empty containers come back as they went in -/
+def msgpackLib : Lib := ⟨fun _ c => c⟩
+
 inductive Res where
   | ok (v : Val)
   | err
